@@ -87,7 +87,8 @@ pub fn respell(args: &[String]) -> Vec<String> {
     let a = &args[i];
     if let Some((long, short)) = valued.iter().find(|(l, _)| l == a) {
       match args.get(i + 1) {
-        Some(v) if !v.starts_with('-') && !v.is_empty() => {
+        // (an option followed by several values, `--node A B`, is left as it is)
+        Some(v) if !v.starts_with('-') && !v.is_empty() && args.get(i + 2).map(|n| n.starts_with('-')).unwrap_or(true) => {
           // a relative path may just as well be written with a leading `./`
           let is_path = matches!(*long, "--input" | "--output" | "--content" | "--base-directory");
           let v = &if is_path && !v.starts_with('.') && !v.starts_with('/') && next() % 4 == 0 {
